@@ -82,6 +82,9 @@ func checkC02(c *Ctx) {
 	p := c.P
 	p.SSA()
 
+	// the batch cursor restricts the whole user condition (same rule as C15.cursor-group)
+	checkCursorGroup(c, c.Rule("C02.cursor-group", "FindInBatches regroups lone-OR conditions on the statement the batch cursor is added to", 1))
+
 	// ---- C02.merge ----
 	rm := c.Rule("C02.merge", "MergeClause of list-carrying clauses keeps both the earlier and the new list", 5)
 	clauseT := p.Named(pkgClause, "Clause")
